@@ -348,7 +348,21 @@ def history_cases(res, rng, count, data):
         for m, model in enumerate(h.models):
             if not hasattr(model, 'coef_') or not h.fitdata[m]:
                 continue
-            Xq = data[h.fitdata[m]][0]
+            Xq = data[h.fitdata[m]][0].copy()
+            if rng.random() < 0.7:
+                # rows below AND above the training range in the same query matrix (numeric columns 0 and 2): the continuation of the
+                # basis outside the edge knots must be decided per row, not per batch
+                k = max(1, len(Xq) // 5)
+                for col in (0, 2):
+                    lo, hi = Xq[:, col].min(), Xq[:, col].max()
+                    rows = rng.sample(range(len(Xq)), 2 * k)
+                    for r_ in rows[:k]:
+                        Xq[r_, col] = lo - (hi - lo) * rng.uniform(0.01, 0.6)
+                    for r_ in rows[k:]:
+                        Xq[r_, col] = hi + (hi - lo) * rng.uniform(0.01, 0.6)
+                res.count('rowwise query: mixed extrapolation')
+            else:
+                res.count('rowwise query: training rows')
             try:
                 P = model.predict(Xq)
                 CI = model.confidence_intervals(Xq)
@@ -413,6 +427,14 @@ def last_fit_weights(log, m):
         if line.startswith('m%d = deepcopy(m' % cur) or line.startswith('m%d = pickle(m' % cur):
             cur = int(line.split('(m')[1].rstrip(')'))
     return False
+
+
+@contextlib.contextmanager
+def warnings_off():
+    import warnings
+    with warnings.catch_warnings(), np.errstate(all='ignore'):
+        warnings.simplefilter('ignore')
+        yield
 
 
 # ----------------------------------------------------------------------------- fixed-shape probes of the property statement
@@ -494,6 +516,47 @@ def direct_probes(res, data):
                                             'changes the candidate\'s predictions', finding=FINDINGS['keep_best'],
                                        input=dict(model='LinearGAM(f(1))', history=['gridsearch(data1, keep_best=True, return_scores=True)', 'fit(data2)']),
                                        observed='candidate predictions changed', expected='unchanged'))
+    # row-wise predictions when one query matrix holds rows on both sides of the training range
+    g = LinearGAM(s(0, n_splines=6) + l(2)).fit(XA, yA)
+    lo0, hi0 = XA[:, 0].min(), XA[:, 0].max()
+    lo2, hi2 = XA[:, 2].min(), XA[:, 2].max()
+    Q = np.array([[lo0 - 0.3, 11.0, lo2 - 0.1], [hi0 + 0.3, 11.0, hi2 + 0.1], [0.5 * (lo0 + hi0), 11.0, 0.5 * (lo2 + hi2)],
+                  [hi0 + 1.7, 11.0, lo2 - 0.4], [lo0 - 2.0, 11.0, hi2 + 0.2]])
+    full = g.predict(Q)
+    fullci = g.confidence_intervals(Q)
+    res.case(('probe', 'rowwise-mixed-extrapolation'))
+    for i in range(len(Q)):
+        one = g.predict(Q[i:i + 1])
+        oneci = g.confidence_intervals(Q[i:i + 1])
+        if not (np.allclose(one, full[i:i + 1], rtol=1e-12, atol=1e-12) and np.allclose(oneci, fullci[i:i + 1], rtol=1e-10, atol=1e-10)):
+            res.violations.append(dict(what='predictions are not row-wise: a row predicted alone differs from the same row predicted in a matrix that '
+                                            'also holds rows on the other side of the training range', finding=None,
+                                       input=dict(model='LinearGAM(s(0, n_splines=6) + l(2)).fit(data1)', query=Q.tolist(), row=i),
+                                       observed=dict(alone=float(one[0]), in_matrix=float(full[i])), expected='equal'))
+            break
+    # fit depends only on settings and data, for the non-Gaussian classes too: a fresh fit, a second fit of the same object on the same
+    # data, a fitted deep copy of the unfitted model and a fit on the same targets with another dtype / container all give the same model
+    import pygam
+    rsq = np.random.RandomState(7)
+    for cls, yy in (('LogisticGAM', (rsq.rand(len(yA)) < 1 / (1 + np.exp(-2 * np.sin(3 * XA[:, 0])))).astype(float)),
+                    ('PoissonGAM', rsq.poisson(np.exp(0.3 + np.sin(3 * XA[:, 0]))).astype(float)),
+                    ('GammaGAM', np.exp(np.sin(3 * XA[:, 0])) * rsq.gamma(8.0, 1 / 8.0, size=len(yA)))):
+        mk = lambda: getattr(pygam, cls)(s(0, n_splines=6) + l(2), tol=1e-10, max_iter=300)
+        with warnings_off():
+            ref = mk().fit(XA, yy.copy()).predict_mu(XA)
+            variants = {'second fit of the same object on the same data': mk().fit(XA, yy.copy()).fit(XA, yy.copy()).predict_mu(XA),
+                        'deep copy of the unfitted model': copy.deepcopy(mk()).fit(XA, yy.copy()).predict_mu(XA),
+                        'targets given as a list': mk().fit(XA, yy.tolist()).predict_mu(XA)}
+            if cls != 'GammaGAM':
+                variants['targets given as an integer array'] = mk().fit(XA, yy.astype(int)).predict_mu(XA)
+                variants['targets given as float32'] = mk().fit(XA, yy.astype(np.float32)).predict_mu(XA)
+        for name, pv in variants.items():
+            res.case(('probe', 'fit-function-of-data', cls, name))
+            if not np.allclose(pv, ref, rtol=1e-5, atol=1e-7):
+                res.violations.append(dict(what='%s: fit is not a function of settings and data: %s differs from a fresh fit on the same float64 targets' % (cls, name),
+                                           finding=None, input=dict(model='%s(s(0, n_splines=6) + l(2), tol=1e-10, max_iter=300)' % cls, X='data1 X',
+                                                                    y=yy.tolist(), variant=name),
+                                           observed=dict(max_abs_diff=float(np.abs(pv - ref).max())), expected='same fitted means (rtol 1e-5)'))
     # caller arrays: integer / float32 / list inputs are not written to
     Xi = (XA * 4).astype(int)
     yi = (yA * 4).astype(int)
